@@ -1,6 +1,8 @@
 import QM.FsLemmas
 import QM.FsDropins
 import QM.Props.C15
+import QM.Props.C03
+import QM.SplitLemmas
 /-! # C13 — search order picks among same-named files; drop-ins come from every search dir
 
 `Cv.candidates t` lists the unit files of an abstract tree in discovery order (every directory of the search order —
@@ -61,6 +63,75 @@ theorem C13_dropins_complete (t : Tree) (dd : List Str) (d n : Str) (hd : d ∈ 
 /-- … and they are merged in byte-wise name order, whatever directories they come from -/
 theorem C13_dropins_name_order (t : Tree) (dd : List Str) : SortedByName (sortConfs (collectConfs t dd)) :=
   sortConfs_sorted _
+
+/-! ### one file or a main file with drop-ins: the same unit
+
+What C03 (repeated headers extend a section), C13 (drop-ins are merged after the main file) and C15 (histories) say
+together, and what the file-level spelling oracle (`harness/filespell.py`) checks on the real loader: a unit spelled as one
+file, cut at any section boundary into a main file and a drop-in (which re-opens whatever section it continues), reads as
+the same unit — every section holds the same entries in the same order, so every lookup answers the same.  (Which
+*empty* sections exist, and the order of sections that the drop-in opens first, are not part of this statement:
+`merge_from` does not create a section for a header without entries.) -/
+
+/-- the single file `r₁ ++ r₂` and the main file `r₁` merged with the drop-in `r₂` hold, section by section, the same entries -/
+theorem C13_split_equiv (env : Parse.Env) (r₁ r₂ : List Parse.RSect)
+    (wf₁ : ∀ s ∈ r₁, s.WF env) (wf₂ : ∀ s ∈ r₂, s.WF env) :
+    ∃ whole main dropin,
+      Parse.parse env (Parse.renderSects r₁ ++ Parse.renderSects r₂) = .ok whole ∧
+      Parse.parse env (Parse.renderSects r₁) = .ok main ∧
+      Parse.parse env (Parse.renderSects r₂) = .ok dropin ∧
+      ∀ sec, MM.entriesOf whole sec = MM.entriesOf (MM.mergeFrom main dropin) sec := by
+  refine ⟨Parse.eraseSects [] (r₁ ++ r₂), Parse.eraseSects [] r₁, Parse.eraseSects [] r₂, ?_, ?_, ?_, ?_⟩
+  · rw [← Parse.renderSects_append]
+    exact Parse.C03_parse_render env (r₁ ++ r₂) (by
+      intro s hs
+      rcases List.mem_append.mp hs with h | h
+      · exact wf₁ s h
+      · exact wf₂ s h)
+  · exact Parse.C03_parse_render env r₁ wf₁
+  · exact Parse.C03_parse_render env r₂ wf₂
+  · intro sec
+    rw [Parse.eraseSects_append, Parse.entriesOf_eraseSects,
+      MM.entriesOf_mergeFrom _ _ (Parse.nodup_eraseSects r₂ [] (by simp)), Parse.entriesOf_eraseSects r₂ []]
+    simp [MM.entriesOf, List.lookup]
+
+/-- … hence the same assignment history for every key, and with it every lookup of C15 -/
+theorem C13_split_histories (env : Parse.Env) (r₁ r₂ : List Parse.RSect)
+    (wf₁ : ∀ s ∈ r₁, s.WF env) (wf₂ : ∀ s ∈ r₂, s.WF env) (whole main dropin : MM.SUnit)
+    (hw : Parse.parse env (Parse.renderSects r₁ ++ Parse.renderSects r₂) = .ok whole)
+    (hm : Parse.parse env (Parse.renderSects r₁) = .ok main) (hd : Parse.parse env (Parse.renderSects r₂) = .ok dropin)
+    (sec key : Str) :
+    assignments whole sec key = assignments (MM.mergeFrom main dropin) sec key ∧
+    lookupAllValues whole sec key = lookupAllValues (MM.mergeFrom main dropin) sec key ∧
+    lookupLastValue whole sec key = lookupLastValue (MM.mergeFrom main dropin) sec key := by
+  obtain ⟨w, m, d, h1, h2, h3, h4⟩ := C13_split_equiv env r₁ r₂ wf₁ wf₂
+  rw [hw] at h1; rw [hm] at h2; rw [hd] at h3
+  cases h1; cases h2; cases h3
+  have e : assignments whole sec key = assignments (MM.mergeFrom main dropin) sec key := by
+    unfold assignments; rw [h4]
+  exact ⟨e, by unfold lookupAllValues; rw [e], by unfold lookupLastValue; rw [e]⟩
+
+def exEnv : Parse.Env := { keyChar := fun c => c.isAlphanum || c == '-', validRaw := fun _ => true }
+def exItem (v : String) : Parse.Item := .entry ⟨[], "Key".toList, [], [], [], v.toList⟩
+def exSect (v : String) : Parse.RSect := ⟨"A".toList, [exItem v]⟩
+
+theorem exItem_wf₁ : (exItem "v 1").WF exEnv := by
+  refine ⟨by simp, by simp, by simp, by simp, by decide, by decide, ?_, ?_, ?_⟩
+  · intro c h; simp at h; subst h; decide
+  · simp [Parse.REntry.valueWF]; decide
+  · intro c h; simp [Parse.renderValue] at h; subst h; decide
+
+theorem exItem_wf₂ : (exItem "w").WF exEnv := by
+  refine ⟨by simp, by simp, by simp, by simp, by decide, by decide, ?_, ?_, ?_⟩
+  · intro c h; simp at h; subst h; decide
+  · simp [Parse.REntry.valueWF]; decide
+  · intro c h; simp [Parse.renderValue] at h; subst h; decide
+
+/-- the hypotheses of `C13_split_equiv` are met by concrete renderings with entries: `[A]\nKey=v 1\n` and `[A]\nKey=w\n` -/
+example : (exSect "v 1").WF exEnv ∧ (exSect "w").WF exEnv := by
+  refine ⟨⟨by decide, by decide, ?_, by rfl⟩, ⟨by decide, by decide, ?_, by rfl⟩⟩
+  · intro it h; simp [exSect] at h; subst h; exact exItem_wf₁
+  · intro it h; simp [exSect] at h; subst h; exact exItem_wf₂
 
 /-- the hypotheses are met by a concrete tree: the same name in two search directories, a second name only in the later -/
 example :
